@@ -1,0 +1,579 @@
+//! `cindex`: the endpoint's routing tables (`ConnectionIndex`, `ConnectionMeta`, the two slabs)
+//! driven through the REAL `Endpoint`: `connect`, `accept`, `refuse`, `ignore`, `handle_event`
+//! (`NeedIdentifiers`, `RetireConnectionId`, `ResetToken`, `Drained`), `handle` and
+//! `ConnectionIndex::get`.  Only two things are not the library's own code path:
+//!  * cryptography is a stub (keys that do nothing, a TLS session that never progresses): routing
+//!    never looks at it;
+//!  * the arrival of a first Initial is `Endpoint::verif_first_packet` (endpoint.rs), which is
+//!    `handle` + `handle_first_packet` without their cryptographic steps.
+//! Connection IDs are an explicit input: the endpoint is built with a `ConnectionIdGenerator`
+//! that replays the candidates given on the request line.
+use std::{
+    any::Any,
+    collections::{BTreeMap, VecDeque},
+    net::{IpAddr, Ipv4Addr, SocketAddr, SocketAddrV4},
+    panic::{catch_unwind, AssertUnwindSafe},
+    sync::{Arc, Mutex},
+};
+
+use bytes::BytesMut;
+
+use super::{hex, num, unhex, Comp, BAD};
+use crate::{
+    cid_generator::ConnectionIdGenerator,
+    config::{ClientConfig, EndpointConfig, ServerConfig},
+    crypto::{
+        self, AeadKey, CryptoError, ExportKeyingMaterialError, HandshakeTokenKey, HeaderKey,
+        HmacKey, KeyPair, Keys, PacketKey, UnsupportedVersion,
+    },
+    endpoint::{verif_hooks::FirstPacket, ConnectError, DatagramEvent, Incoming},
+    shared::{ConnectionEventInner, EndpointEvent, EndpointEventInner},
+    transport_parameters::TransportParameters,
+    ConnectionHandle, ConnectionId, Duration, Endpoint, Instant, ResetToken, Side, TransportError,
+    MAX_CID_SIZE, RESET_TOKEN_SIZE,
+};
+
+// ---------------------------------------------------------------- stub cryptography
+
+struct NoHeaderKey;
+impl HeaderKey for NoHeaderKey {
+    fn decrypt(&self, _: usize, _: &mut [u8]) {}
+    fn encrypt(&self, _: usize, _: &mut [u8]) {}
+    fn sample_size(&self) -> usize {
+        16
+    }
+}
+
+/// "decrypts" everything except payloads starting with 0xff (so a request can make
+/// `Endpoint::accept` take its authentication-failure exit)
+struct NoPacketKey;
+impl PacketKey for NoPacketKey {
+    fn encrypt(&self, _: u64, _: &mut [u8], _: usize) {}
+    fn decrypt(&self, _: u64, _: &[u8], payload: &mut BytesMut) -> Result<(), CryptoError> {
+        match payload.first() {
+            Some(0xff) => Err(CryptoError),
+            _ => Ok(()),
+        }
+    }
+    fn tag_len(&self) -> usize {
+        16
+    }
+    fn confidentiality_limit(&self) -> u64 {
+        u64::MAX
+    }
+    fn integrity_limit(&self) -> u64 {
+        u64::MAX
+    }
+}
+
+fn no_keys() -> Keys {
+    Keys {
+        header: KeyPair {
+            local: Box::new(NoHeaderKey),
+            remote: Box::new(NoHeaderKey),
+        },
+        packet: KeyPair {
+            local: Box::new(NoPacketKey),
+            remote: Box::new(NoPacketKey),
+        },
+    }
+}
+
+struct NoSession;
+impl crypto::Session for NoSession {
+    fn initial_keys(&self, _: ConnectionId, _: Side) -> Keys {
+        no_keys()
+    }
+    fn handshake_data(&self) -> Option<Box<dyn Any>> {
+        None
+    }
+    fn peer_identity(&self) -> Option<Box<dyn Any>> {
+        None
+    }
+    fn early_crypto(&self) -> Option<(Box<dyn HeaderKey>, Box<dyn PacketKey>)> {
+        None
+    }
+    fn early_data_accepted(&self) -> Option<bool> {
+        None
+    }
+    fn is_handshaking(&self) -> bool {
+        true
+    }
+    fn read_handshake(&mut self, _: &[u8]) -> Result<bool, TransportError> {
+        Ok(false)
+    }
+    fn transport_parameters(&self) -> Result<Option<TransportParameters>, TransportError> {
+        Ok(None)
+    }
+    fn write_handshake(&mut self, _: &mut Vec<u8>) -> Option<Keys> {
+        None
+    }
+    fn next_1rtt_keys(&mut self) -> Option<KeyPair<Box<dyn PacketKey>>> {
+        None
+    }
+    fn is_valid_retry(&self, _: ConnectionId, _: &[u8], _: &[u8]) -> bool {
+        false
+    }
+    fn export_keying_material(
+        &self,
+        _: &mut [u8],
+        _: &[u8],
+        _: &[u8],
+    ) -> Result<(), ExportKeyingMaterialError> {
+        Err(ExportKeyingMaterialError)
+    }
+}
+
+/// the TLS layer rejects the server name "bad" (rustls does this for names that are neither a
+/// DNS name nor an IP address): `Endpoint::connect` then takes its `start_session(..)?` exit
+struct NoClientCrypto;
+impl crypto::ClientConfig for NoClientCrypto {
+    fn start_session(
+        self: Arc<Self>,
+        _: u32,
+        server_name: &str,
+        _: &TransportParameters,
+    ) -> Result<Box<dyn crypto::Session>, ConnectError> {
+        if server_name == "bad" {
+            return Err(ConnectError::InvalidServerName(server_name.into()));
+        }
+        Ok(Box::new(NoSession))
+    }
+}
+
+struct NoServerCrypto;
+impl crypto::ServerConfig for NoServerCrypto {
+    fn initial_keys(&self, _: u32, _: ConnectionId) -> Result<Keys, UnsupportedVersion> {
+        Ok(no_keys())
+    }
+    fn retry_tag(&self, _: u32, _: ConnectionId, _: &[u8]) -> [u8; 16] {
+        [0; 16]
+    }
+    fn start_session(
+        self: Arc<Self>,
+        _: u32,
+        _: &TransportParameters,
+    ) -> Box<dyn crypto::Session> {
+        Box::new(NoSession)
+    }
+}
+
+struct NoTokenKey;
+impl HandshakeTokenKey for NoTokenKey {
+    fn aead_from_hkdf(&self, _: &[u8]) -> Box<dyn AeadKey> {
+        Box::new(NoAead)
+    }
+}
+struct NoAead;
+impl AeadKey for NoAead {
+    fn seal(&self, _: &mut Vec<u8>, _: &[u8]) -> Result<(), CryptoError> {
+        Ok(())
+    }
+    fn open<'a>(&self, data: &'a mut [u8], _: &[u8]) -> Result<&'a mut [u8], CryptoError> {
+        Ok(data)
+    }
+}
+
+struct NoHmac;
+impl HmacKey for NoHmac {
+    fn sign(&self, data: &[u8], out: &mut [u8]) {
+        let mut h: u64 = 0xcbf2_9ce4_8422_2325;
+        for b in data {
+            h = (h ^ *b as u64).wrapping_mul(0x0000_0100_0000_01b3);
+        }
+        for (i, o) in out.iter_mut().enumerate() {
+            h = (h ^ i as u64).wrapping_mul(0x0000_0100_0000_01b3);
+            *o = (h >> 32) as u8;
+        }
+    }
+    fn signature_len(&self) -> usize {
+        32
+    }
+    fn verify(&self, _: &[u8], _: &[u8]) -> Result<(), CryptoError> {
+        Err(CryptoError)
+    }
+}
+
+// ---------------------------------------------------------------- explicit CID source
+
+/// `generate_cid` replays the candidates of the current request; zero-length generators return
+/// the empty CID without consuming anything (like `RandomConnectionIdGenerator::new(0)`).
+/// Running out of candidates is a panic (the real generators never run out; the model treats
+/// it as "this request cannot be executed").
+struct ScriptedCids {
+    len: usize,
+    queue: Arc<Mutex<VecDeque<ConnectionId>>>,
+}
+impl ConnectionIdGenerator for ScriptedCids {
+    fn generate_cid(&mut self) -> ConnectionId {
+        if self.len == 0 {
+            return ConnectionId::new(&[]);
+        }
+        self.queue
+            .lock()
+            .unwrap()
+            .pop_front()
+            .expect("verif: CID candidates exhausted")
+    }
+    fn cid_len(&self) -> usize {
+        self.len
+    }
+    fn cid_lifetime(&self) -> Option<Duration> {
+        None
+    }
+}
+
+// ---------------------------------------------------------------- the component
+
+pub(super) struct CindexC {
+    ep: Endpoint,
+    cid_len: usize,
+    queue: Arc<Mutex<VecDeque<ConnectionId>>>,
+    /// the `Incoming`s the application currently holds, by `incoming_idx`
+    pending: BTreeMap<usize, Incoming>,
+    now: Instant,
+    poisoned: bool,
+}
+
+fn parse_addr(s: &str) -> Option<SocketAddr> {
+    let (ip, port) = s.split_once(':')?;
+    let ip: u32 = ip.parse().ok()?;
+    let port: u16 = port.parse().ok()?;
+    Some(SocketAddr::V4(SocketAddrV4::new(Ipv4Addr::from(ip), port)))
+}
+
+fn parse_local(s: &str) -> Option<Option<IpAddr>> {
+    if s == "-" {
+        return Some(None);
+    }
+    let ip: u32 = s.parse().ok()?;
+    Some(Some(IpAddr::V4(Ipv4Addr::from(ip))))
+}
+
+fn parse_cid(s: &str) -> Option<ConnectionId> {
+    let b = unhex(s)?;
+    if b.len() > MAX_CID_SIZE {
+        return None;
+    }
+    Some(ConnectionId::new(&b))
+}
+
+fn fnv(lines: &[String]) -> u64 {
+    let mut h: u64 = 0xcbf2_9ce4_8422_2325;
+    for l in lines {
+        for b in l.bytes() {
+            h = (h ^ b as u64).wrapping_mul(0x0000_0100_0000_01b3);
+        }
+        h = (h ^ 10).wrapping_mul(0x0000_0100_0000_01b3);
+    }
+    h
+}
+
+impl CindexC {
+    pub(super) fn new() -> Self {
+        Self::with(8, false)
+    }
+
+    fn with(cid_len: usize, pref: bool) -> Self {
+        let queue = Arc::new(Mutex::new(VecDeque::new()));
+        let mut cfg = EndpointConfig::new(Arc::new(NoHmac));
+        let q = queue.clone();
+        cfg.cid_generator(Arc::new(move || -> Box<dyn ConnectionIdGenerator> {
+            Box::new(ScriptedCids {
+                len: cid_len,
+                queue: q.clone(),
+            })
+        }));
+        let mut server = ServerConfig::new(Arc::new(NoServerCrypto), Arc::new(NoTokenKey));
+        if pref {
+            server.preferred_address_v4(Some(SocketAddrV4::new(Ipv4Addr::new(192, 0, 2, 1), 4433)));
+        }
+        Self {
+            ep: Endpoint::new(Arc::new(cfg), Some(Arc::new(server)), false),
+            cid_len,
+            queue,
+            pending: BTreeMap::new(),
+            now: Instant::now(),
+            poisoned: false,
+        }
+    }
+
+    /// `_` = no candidates, else comma separated hex CIDs, each of the generator's length
+    fn load_cands(&mut self, s: &str) -> bool {
+        let mut q = VecDeque::new();
+        if s != "_" {
+            for c in s.split(',') {
+                let Some(c) = parse_cid(c) else { return false };
+                if c.len() != self.cid_len || c.is_empty() {
+                    return false;
+                }
+                q.push_back(c);
+            }
+        }
+        *self.queue.lock().unwrap() = q;
+        true
+    }
+
+    fn summary(&self) -> String {
+        let s = self.ep.verif_sizes();
+        format!(
+            "i={} c={} r={} o={} t={}/{} n={} p={} h={:016x}",
+            s[0],
+            s[1],
+            s[2],
+            s[3],
+            s[4],
+            s[5],
+            s[6],
+            s[7],
+            fnv(&self.ep.verif_dump())
+        )
+    }
+
+    fn event(&mut self, ch: usize, ev: EndpointEventInner) -> String {
+        match self.ep.handle_event(ConnectionHandle(ch), EndpointEvent(ev)) {
+            None => "none".into(),
+            Some(e) => match e.0 {
+                ConnectionEventInner::NewIdentifiers(ids, _) => {
+                    if ids.is_empty() {
+                        return "ids -".into();
+                    }
+                    let v: Vec<String> = ids
+                        .iter()
+                        .map(|i| format!("{}:{}", i.sequence, hex(&i.id)))
+                        .collect();
+                    format!("ids {}", v.join(","))
+                }
+                ConnectionEventInner::Datagram(_) => "datagram".into(),
+            },
+        }
+    }
+
+    fn run(&mut self, w: &[&str]) -> Option<String> {
+        Some(match w {
+            ["connect", remote, init, tls, cands] => {
+                let (remote, init) = (parse_addr(remote)?, parse_cid(init)?);
+                let name = match *tls {
+                    "1" => "ok",
+                    "0" => "bad",
+                    _ => return None,
+                };
+                if !self.load_cands(cands) {
+                    return None;
+                }
+                let mut cfg = ClientConfig::new(Arc::new(NoClientCrypto));
+                cfg.initial_dst_cid_provider(Arc::new(move || init));
+                match self.ep.connect(self.now, cfg, remote, name) {
+                    Ok((ch, _conn)) => format!("ok {}", ch.0),
+                    Err(ConnectError::CidsExhausted) => "err CidsExhausted".into(),
+                    Err(ConnectError::InvalidRemoteAddress(_)) => {
+                        "err InvalidRemoteAddress".into()
+                    }
+                    Err(ConnectError::InvalidServerName(_)) => "err InvalidServerName".into(),
+                    Err(e) => format!("err other {e}"),
+                }
+            }
+            ["first", remote, local, dcid, data] => {
+                let (remote, local, dcid, data) = (
+                    parse_addr(remote)?,
+                    parse_local(local)?,
+                    parse_cid(dcid)?,
+                    unhex(data)?,
+                );
+                let len = data.len();
+                let payload = BytesMut::from(&[0x01u8][..]);
+                match self.ep.verif_first_packet(
+                    self.now,
+                    remote,
+                    local,
+                    BytesMut::from(&data[..]),
+                    payload,
+                    no_keys(),
+                ) {
+                    FirstPacket::Undecodable => "decode-mismatch undecodable".into(),
+                    FirstPacket::Routed(r) | FirstPacket::New(r, _, _)
+                        if r.kind != "initial" || r.dst_cid != dcid || r.data_len != len =>
+                    {
+                        format!("decode-mismatch {} {} {}", r.kind, hex(&r.dst_cid), r.data_len)
+                    }
+                    FirstPacket::Routed(r) => format!("routed {}", r.route),
+                    FirstPacket::New(_, idx, incoming) => {
+                        self.pending.insert(idx, incoming);
+                        format!("new {idx}")
+                    }
+                }
+            }
+            ["accept", idx, mode, cands] => {
+                let idx = num(idx)? as usize;
+                if !matches!(*mode, "ok" | "stale" | "auth" | "badpacket") {
+                    return None;
+                }
+                if !self.load_cands(cands) || !self.pending.contains_key(&idx) {
+                    return None;
+                }
+                let mut incoming = self.pending.remove(&idx).unwrap();
+                debug_assert_eq!(incoming.verif_idx(), idx);
+                let now = match *mode {
+                    "stale" => self.now + Duration::from_secs(3600),
+                    _ => self.now,
+                };
+                incoming.verif_set_payload(match *mode {
+                    "auth" => &[0xff],
+                    // a STREAM frame is illegal in an Initial packet
+                    "badpacket" => &[0x08, 0x00, 0x00],
+                    _ => &[0x01],
+                });
+                let mut buf = Vec::new();
+                match self.ep.accept(incoming, now, &mut buf, None) {
+                    Ok((ch, _conn)) => format!("ok {}", ch.0),
+                    Err(e) => format!(
+                        "err {}",
+                        match e.cause {
+                            crate::ConnectionError::TimedOut => "TimedOut".to_string(),
+                            crate::ConnectionError::CidsExhausted => "CidsExhausted".to_string(),
+                            crate::ConnectionError::TransportError(ref t)
+                                if t.reason == "authentication failed" =>
+                                "auth".to_string(),
+                            crate::ConnectionError::TransportError(_) => "first-packet".to_string(),
+                            ref o => format!("other {o}"),
+                        }
+                    ),
+                }
+            }
+            ["ignore", idx] => {
+                let idx = num(idx)? as usize;
+                let incoming = self.pending.remove(&idx)?;
+                self.ep.ignore(incoming);
+                "ok".into()
+            }
+            ["refuse", idx, cands] => {
+                let idx = num(idx)? as usize;
+                if !self.load_cands(cands) {
+                    return None;
+                }
+                let incoming = self.pending.remove(&idx)?;
+                let mut buf = Vec::new();
+                let _ = self.ep.refuse(incoming, &mut buf);
+                "ok".into()
+            }
+            ["issue", ch, n, cands] => {
+                let (ch, n) = (num(ch)? as usize, num(n)?);
+                if n > 64 || !self.load_cands(cands) {
+                    return None;
+                }
+                self.event(ch, EndpointEventInner::NeedIdentifiers(self.now, n))
+            }
+            ["retire", ch, seq, allow, cands] => {
+                let (ch, seq) = (num(ch)? as usize, num(seq)?);
+                let allow = match *allow {
+                    "1" => true,
+                    "0" => false,
+                    _ => return None,
+                };
+                if !self.load_cands(cands) {
+                    return None;
+                }
+                self.event(ch, EndpointEventInner::RetireConnectionId(self.now, seq, allow))
+            }
+            ["token", ch, remote, tok] => {
+                let (ch, remote, tok) = (num(ch)? as usize, parse_addr(remote)?, unhex(tok)?);
+                let tok: [u8; RESET_TOKEN_SIZE] = tok.try_into().ok()?;
+                self.event(ch, EndpointEventInner::ResetToken(remote, ResetToken::from(tok)))
+            }
+            ["drained", ch] => {
+                let ch = num(ch)? as usize;
+                self.event(ch, EndpointEventInner::Drained)
+            }
+            ["route", kind, remote, local, dcid, data] => {
+                let (remote, local, dcid, data) = (
+                    parse_addr(remote)?,
+                    parse_local(local)?,
+                    parse_cid(dcid)?,
+                    unhex(data)?,
+                );
+                if !matches!(*kind, "initial" | "zrtt" | "long" | "short") {
+                    return None;
+                }
+                let Some(r) = self
+                    .ep
+                    .verif_route(remote, local, BytesMut::from(&data[..]))
+                else {
+                    return Some("decode-mismatch undecodable".into());
+                };
+                if r.kind != *kind || r.dst_cid != dcid || r.data_len != data.len() {
+                    return Some(format!(
+                        "decode-mismatch {} {} {}",
+                        r.kind,
+                        hex(&r.dst_cid),
+                        r.data_len
+                    ));
+                }
+                if r.route.starts_with("conn ") {
+                    // the public entry point must agree with the cascade
+                    let mut buf = Vec::new();
+                    let via = match self.ep.handle(
+                        self.now,
+                        remote,
+                        local,
+                        None,
+                        BytesMut::from(&data[..]),
+                        &mut buf,
+                    ) {
+                        Some(DatagramEvent::ConnectionEvent(ch, _)) => format!("{}", ch.0),
+                        Some(DatagramEvent::NewConnection(_)) => "new".into(),
+                        Some(DatagramEvent::Response(_)) => "response".into(),
+                        None => "none".into(),
+                    };
+                    return Some(format!("{} handle={via}", r.route));
+                }
+                return Some(r.route);
+            }
+            _ => return None,
+        })
+    }
+}
+
+impl Comp for CindexC {
+    fn exec(&mut self, w: &[&str]) -> String {
+        match w {
+            ["new", len, pref] => {
+                let (Some(len), Some(pref)) = (num(len), num(pref)) else {
+                    return BAD.into();
+                };
+                if len as usize > MAX_CID_SIZE || pref > 1 {
+                    return BAD.into();
+                }
+                *self = Self::with(len as usize, pref == 1);
+                return format!("ok {}", self.summary());
+            }
+            ["dump"] => {
+                if self.poisoned {
+                    return "poisoned".into();
+                }
+                return format!("dump {}", self.ep.verif_dump().join(" "));
+            }
+            _ => {}
+        }
+        if self.poisoned {
+            return "poisoned".into();
+        }
+        match catch_unwind(AssertUnwindSafe(|| self.run(w))) {
+            Ok(None) => BAD.into(),
+            Ok(Some(r)) => {
+                if w[0] == "route" {
+                    r
+                } else {
+                    format!("{r} | {}", self.summary())
+                }
+            }
+            Err(e) => {
+                if std::env::var_os("VERIF_DEBUG").is_some() {
+                    let m = e.downcast_ref::<String>().cloned().or_else(|| e.downcast_ref::<&str>().map(|s| s.to_string()));
+                    eprintln!("cindex panic: {m:?}");
+                }
+                self.poisoned = true;
+                "panic".into()
+            }
+        }
+    }
+}
